@@ -46,6 +46,14 @@ type mutA struct {
 	BinderEdit *binderEdit
 }
 
+// binderLen: the binder is an HMAC under the hash of the ticket's cipher suite.
+func binderLen(suite uint16) int {
+	if suite == s13A256 {
+		return 48
+	}
+	return 32
+}
+
 // binderEdit rewrites the PSK binder of the ClientHello in flight (offset into the binder).
 type binderEdit struct {
 	Off  int  `json:"off"` // -1: every byte
@@ -77,19 +85,24 @@ func (b *binderEdit) apply(note *string) func(d tlsx.Dir, nth int, data []byte) 
 		if !ext.ok || len(r.b) != 0 {
 			return bad("ClientHello extensions do not end the message")
 		}
-		last, lastLen := -1, 0
+		last, lastData := -1, []byte(nil)
 		for ext.ok && len(ext.b) > 0 {
 			last = ext.u16()
-			lastLen = len(ext.n(ext.u16()))
+			lastData = ext.n(ext.u16())
 		}
-		if !ext.ok || last != 41 || lastLen < 35 {
+		if !ext.ok || last != 41 {
 			return bad("pre_shared_key is not the last extension")
 		}
-		// binders: uint16 total = 33, uint8 len = 32, 32 bytes
-		if data[n-35] != 0 || data[n-34] != 33 || data[n-33] != 32 {
-			return bad("not exactly one 32-byte binder at the end of the ClientHello")
+		// identities<7..2^16-1> binders<33..2^16-1>; one PskBinderEntry<32..255> expected
+		pk := rd{lastData, true}
+		pk.n(pk.u16())
+		bl := rd{pk.n(pk.u16()), pk.ok}
+		L := bl.u8()
+		bl.n(L)
+		if !bl.ok || len(bl.b) != 0 || len(pk.b) != 0 || L < 32 || (b.Off >= L) {
+			return bad("not exactly one binder at the end of the ClientHello (or offset beyond it)")
 		}
-		bin := data[n-32:]
+		bin := data[n-L:]
 		switch {
 		case b.Zero:
 			for i := range bin {
@@ -349,7 +362,7 @@ func mutationsA(e *envA, other []byte, cross []byte, crossVers uint16, pairs boo
 				b[i] ^= x
 				addB("binder@client-nonce", fmt.Sprintf("client derives PSK and binder from the ticket nonce with byte %d ^%02x", i, x), mutA{Nonce: b})
 			}
-			for i := 0; i < 32; i++ {
+			for i := 0; i < binderLen(e.suite); i++ {
 				addB("binder@in-flight", fmt.Sprintf("binder byte %d ^%02x in flight", i, x), mutA{BinderEdit: &binderEdit{Off: i, Xor: x}})
 			}
 		}
